@@ -297,8 +297,9 @@ func publishedSig(p *jnode) string {
 }
 
 func checkC17(c *Ctx, r *Report) {
-	r.Rules = []string{"S1 yaml/json key agreement", "S2 published schema equals the statically reflected structure", "S3 enums cover the values the code accepts", "S3 tag default is a member of its own enum", "schema command reflects nfpm.Config"}
+	r.Rules = []string{"S1 yaml/json key agreement", "S2 published schema equals the statically reflected structure", "S3 enums cover the values the code accepts", "S3 tag default is a member of its own enum", "schema command reflects nfpm.Config", "S4-required only keys whose absence the code rejects are required", "output-truncates command output files are replaced, not overwritten in place"}
 	r.Explanation = "Struct-tag walk over go/types compared with the repository's published schema and with constants extracted from go/ssa. (S1) every exported field reachable from nfpm.Config has the same yaml and json key, inline status and skip status, so the key paths the strict parser accepts are exactly those the schema (reflected from json tags) allows. (S2) the structure that `nfpm jsonschema` reflects — definitions for every named struct and named slice type, ordered property lists with inline expansion, required = fields without omitempty, additionalProperties:false, type/$ref/format, title, enum and default from the jsonschema tag — is computed statically and compared with www/docs/static/schema.json; any added, removed, renamed or re-typed field, or changed enum, makes the published file stale. (S3) for every field whose tag declares an enum, the string constants the module compares that field against (switch cases, validation chains), stores into it as a default, and — for content entries — the user-settable types the planner accepts, must all be members of the enum (the empty string excepted); the tag's default must be in its enum."
+	r.Explanation += " (S4-required) a key whose json tag lacks omitempty is required by the generated schema; only name, arch, version and a content's dst - whose absence the code rejects - may be. (output-truncates) the commands write their output files with os.WriteFile/os.Create or an os.OpenFile carrying O_TRUNC."
 	r.Assumptions = []string{
 		"invopop/jsonschema v0.13.0 reflects exactly the modelled keywords from the struct tags (model stated in DESIGN appendix A9; examples/description are not compared)",
 		"documents are not validated against the schema; byte identity with the command's output is decided on the modelled keywords only",
